@@ -63,13 +63,14 @@ impl Sm9EncKey {
         k_append.extend_from_slice(&w_bytes);
         k_append.extend_from_slice(idb);
         let k = kdf(&k_append, (255 + 32) as usize);
-        fn is_zero(x: &Vec<u8>) -> bool {
+        fn is_zero(x: &[u8]) -> bool {
             x.iter().all(|&byte| byte == 0)
         }
 
-        if !is_zero(&k) {
+        // B3: if K1' is all zero, report an error
+        let mlen = data.len() - (65 + 32);
+        if !is_zero(&k[0..mlen]) {
             let k = k.as_slice();
-            let mlen = data.len() - (65 + 32);
             let k1 = &k[0..mlen];
             let k2 = &k[mlen..];
             let u = sm9_mac(k2, c2);
@@ -97,16 +98,17 @@ impl Sm9EncMasterKey {
     pub fn encrypt(&self, idb: &[u8], data: &[u8]) -> Vec<u8> {
         // A1: Q = H1(ID||hid,N) * P1 + Ppube
         let t = sm9_u256_hash1(idb, SM9_HID_ENC);
-        let mut c1 = SM9_POINT_MONT_P1.point_mul(&t);
-        c1 = c1.point_add(&self.ppube);
+        let mut q = SM9_POINT_MONT_P1.point_mul(&t);
+        q = q.point_add(&self.ppube);
 
+        let mut c1;
         let mut k = vec![];
         loop {
             // A2: rand r in [1, N-1]
             let r = sm9_random_u256(&SM9_N_MINUS_ONE);
 
             // A3: C1 = r * Q
-            c1 = c1.point_mul(&r);
+            c1 = q.point_mul(&r);
             let cbuf = c1.to_bytes_be();
             let cbuf = cbuf.as_slice();
 
@@ -125,11 +127,12 @@ impl Sm9EncMasterKey {
             k_append.extend_from_slice(gbuf);
             k_append.extend_from_slice(idb);
             k = kdf(&k_append, (255 + 32) as usize);
-            fn is_zero(x: &Vec<u8>) -> bool {
+            fn is_zero(x: &[u8]) -> bool {
                 x.iter().all(|&byte| byte == 0)
             }
 
-            if !is_zero(&k) {
+            // A6: if K1 is all zero, go back to A2
+            if data.is_empty() || !is_zero(&k[0..data.len()]) {
                 break;
             }
         }
